@@ -1012,6 +1012,13 @@ func (m *ModRef) extern(fn *ssa.Function, c ssa.CallInstruction, callee *ssa.Fun
 				m.addAll(cb.Params[1], fo)
 			}
 		}
+	case (strings.HasPrefix(name, "slices.Clone") || name == "bytes.Clone") && len(args) == 1:
+		// a fresh array holding a shallow copy of the elements
+		fo := locSet{Loc{m.fresh(c, name), ""}: {}}
+		if sl, ok := c.Common().Args[0].Type().Underlying().(*types.Slice); ok {
+			m.storeTo(elems(fo), m.loadFrom(elems(args[0]), sl.Elem()), sl.Elem())
+		}
+		m.setResult(c, 0, nres, fo)
 	case name == "bytes.TrimRight" || name == "bytes.TrimLeft" || name == "bytes.TrimSpace" || name == "bytes.Trim":
 		m.setResult(c, 0, nres, args[0])
 	default:
